@@ -17,8 +17,10 @@ import sessionlib as sl
 #   o answer correctly / ACK        s nothing                       w a well-formed frame of another kind
 #   h right kind, payload too short g the reference device's garbage blob (contains the decodable header 55 01 ff 00:
 #   n an ACK frame with a non-zero code (NACK)                        a 65281-byte frame is announced, everything later is its body)
-#   x noise without a start byte    u (scenarios only) channel-info whose name is not UTF-8
-RESP = {"o": "ack", "s": "lost", "w": "wrong-frame", "h": "short", "g": "garbage", "n": "nack", "x": "noise", "u": "badname"}
+#   x noise without a start byte    u channel-info whose name is not UTF-8 (any other request: answered correctly)
+#   r a well-formed STREAM frame without samples (the "wrong frame" that lands in the OTHER queue: R4-C-L1)
+RESP = {"o": "ack", "s": "lost", "w": "wrong-frame", "h": "short", "g": "garbage", "n": "nack", "x": "noise", "u": "badname",
+        "r": "wrong-stream"}
 NOISE_X = bytes([0x13, 0x37, 0x00, 0xFF, 0x54])
 
 LIB_THREADS = ("recv", "stream")
@@ -71,6 +73,9 @@ class ScriptPolicy:
         if c == "x":
             dev.rx += NOISE_X
             return "lost"
+        if c == "r":
+            dev._send(refdev.STREAM, b"\x00")          # flags byte only: decodes to no samples for any device
+            return "lost"
         if c == "u":
             if kind == "chinfo":
                 dev._send(refdev.CHINFO, bytes([0, 10, 1, 0, 0]) + b"temp\xb0C")
@@ -102,11 +107,125 @@ def decode_writes(writes):
     return out
 
 
+# ---- the source's own time-outs -------------------------------------------------------------------------------------------
+# The property says "within a bounded time"; it names no number.  What the calls may take is therefore computed from the
+# time-outs and retry counters the code under test itself contains (read the way the translator reads them for
+# `Gen/Comm.lean`); a site the translator cannot read gets a generous ceiling.  A tunable that is changed (ACK wait 1 s -> 2 s)
+# moves the bound with it: only a call that does not come back within what its OWN waits add up to (plus slack) is judged.
+
+CEIL = {"connectAttempts": 20, "chinfoAttempts": 20, "cmninfoTimeout": 100, "chinfoTimeout": 100, "ackTimeoutEnable": 100,
+        "ackTimeoutDiv": 100, "ackTimeoutStart": 100, "ackTimeoutStop": 100, "streamDataTimeout": 100, "drainPolls": 10,
+        "drainPollTime": 5, "drainStreamPolls": 10, "drainStreamPollTime": 5}
+_SRC = {}
+
+
+def src_consts():
+    """time-outs (tenths of a second) and counters of the code under test; ceiling where the site is not a literal"""
+    if not _SRC:
+        facts = {}
+        try:
+            import common
+            import translate
+            facts = translate.gen_comm(common.REPO).facts
+        except Exception:  # noqa: BLE001 - the translator's problems are reported by the translate step
+            facts = {}
+        for k, ceil in CEIL.items():
+            try:
+                _SRC[k] = int(facts.get(k))
+            except (TypeError, ValueError):
+                _SRC[k] = ceil
+    return _SRC
+
+
+def drain_tenths():
+    c = src_consts()
+    return c["drainPolls"] * c["drainPollTime"] + c["drainStreamPolls"] * c["drainStreamPollTime"]
+
+
 def bound_tenths(chmax):
-    return 8 + 6 * (10 + 8 + chmax * 6 * 10)
+    """first drain + attempts x (cmninfo wait + drain + channels x tries x chinfo wait) — 8 + 6 * (10 + 8 + chmax * 60) today"""
+    c = src_consts()
+    return drain_tenths() + c["connectAttempts"] * (c["cmninfoTimeout"] + drain_tenths()
+                                                    + chmax * c["chinfoAttempts"] * c["chinfoTimeout"])
+
+
+def slack(b):
+    """a bound with slack: the property demands boundedness, not a particular figure"""
+    return 1.25 * b + 1.0
 
 
 # ---- one session on the real handlers ---------------------------------------------------------------------------------
+
+SERIAL_CALL_COST = 0.005
+
+
+def make_serial_link(sim, dev):
+    """the REAL `nxslib.intf.serial.SerialDevice`, built by its own constructor, over a port object with pyserial's blocking
+    semantics in virtual time (the way C18's harness swaps the name `serial` in `nxslib.intf.serial`):
+      `read(n)`, n > 0: returns as soon as n bytes wait, else after the port time-out the constructor asked for, with what is there;
+      `read(0)`: returns b"" at once — charged SERIAL_CALL_COST virtual seconds, so that time advances while the receive thread
+      busy-polls an idle port (the unmodified `_read` is `read(in_waiting)`); `write`: handed to the reference device.
+    What the far end sends (answers, line noise) is `dev.rx`."""
+    import types
+    import nxslib.intf.serial as ns
+
+    class VSerial:
+        def __init__(self, *args, **kw):
+            self.args, self.kw = args, kw
+            self.timeout = kw.get("timeout")
+            self.is_open = True
+            self.writes = []
+            self.nreads = 0
+
+        @property
+        def in_waiting(self):
+            return len(dev.rx)
+
+        def read(self, size=1):
+            self.nreads += 1
+            if size <= 0:
+                sim.block(lambda: False, SERIAL_CALL_COST, "serial-idle-call")
+                return b""
+            if len(dev.rx) < size and self.timeout != 0:
+                sim.block(lambda: len(dev.rx) >= size, self.timeout, "serial-read")
+            out = bytes(dev.rx[:size])
+            del dev.rx[:size]
+            return out
+
+        def write(self, data):
+            self.writes.append(bytes(data))
+            sim.yield_("serial-write")
+            dev.on_write(bytes(data))
+            return len(data)
+
+        def close(self):
+            self.is_open = False
+
+    real = ns.serial
+    ns.serial = types.SimpleNamespace(Serial=VSerial, SerialException=real.SerialException)
+    try:
+        link = ns.SerialDevice("/dev/virtual-port", 115200)
+    finally:
+        ns.serial = real
+    port = link._ser
+    assert isinstance(port, VSerial)
+    # bookkeeping the session runner reads (SerialDevice.start / stop only log)
+    link.started = link.stopped = 0
+    start0, stop0 = link.start, link.stop
+
+    def start():
+        link.started += 1
+        return start0()
+
+    def stop():
+        link.stopped += 1
+        return stop0()
+    link.start, link.stop = start, stop
+    link.writes = port.writes
+    link.reads = lambda: port.nreads
+    dev.now = lambda: sim.now
+    return link
+
 
 def has_header(blob):
     """can the periodic repetition of `blob` (or the blob itself) contain a decodable serial header?
@@ -117,7 +236,7 @@ def has_header(blob):
 
 def session_defaults(p):
     q = {"level": "l", "chmax": 2, "flags": 3, "rxp": 0, "script": "", "dflt": "o", "ops": "cd", "chunk": 0, "poll": 0.01,
-         "noise": [], "inject": {}, "read_inject": {}, "stream_every": 0, "en": False, "seed": 0}
+         "noise": [], "inject": {}, "read_inject": {}, "stream_every": 0, "en": False, "seed": 0, "port": "sim"}
     q.update(p)
     return q
 
@@ -141,8 +260,11 @@ def run_session(p, time_limit=None, real_limit=20.0):
         pol = ScriptPolicy(p["script"], p["dflt"], inject)
         dev = refdev.RefDevice(sl.mk_chans([p["en"]] * chmax, [0] * chmax), flags=p["flags"], rxpadding=p["rxp"], policy=pol)
         chunk = p["chunk"]
-        link = refdev.make_link(sim, dev, poll=p["poll"], chunker=(lambda n: chunk) if chunk else None,
-                                stream_every=p["stream_every"] or None)
+        if p["port"] == "serial":
+            link = make_serial_link(sim, dev)
+        else:
+            link = refdev.make_link(sim, dev, poll=p["poll"], chunker=(lambda n: chunk) if chunk else None,
+                                    stream_every=p["stream_every"] or None)
         # bytes injected at the n-th read of the link / after an answer
         rinj = {int(k): (bytes.fromhex(v[0]), v[1]) for k, v in p["read_inject"].items()}
         orig_read = link._read
@@ -257,7 +379,7 @@ def run_session(p, time_limit=None, real_limit=20.0):
         stop_noise["v"] = True
         done["v"] = True
         res["sent"] = decode_writes(link.writes)
-        res["reads"] = link.reads
+        res["reads"] = link.reads() if callable(link.reads) else link.reads
 
     def neutralize():
         # the handlers' destructors call disconnect(): they must not run inside a LATER simulation
@@ -290,6 +412,11 @@ def stop_latency(p):
     (a noise `55` in front of an answer `55 09 00 02 …` IS the header of a 2389-byte frame)."""
     p = session_defaults(p)
     poll = p["poll"]
+    if p["port"] == "serial":
+        # `poll` is the port time-out (what SerialDevice passes to serial.Serial: 1 s): a read may block that long, whatever
+        # `_read` asks for; the scenarios' line noise contains no start byte, so the body is back after at most 8 reads
+        assert not any(nz["blob"] == "random" or has_header(bytes.fromhex(nz["blob"])) for nz in p["noise"])
+        return 10 * poll + 0.05
     fast = [nz for nz in p["noise"] if nz["period"] <= poll]
     if not fast:
         return 2 * poll + 0.05
@@ -307,19 +434,26 @@ def op_bound(p, op):
     p = session_defaults(p)
     high = p["level"] == "h"
     lat = stop_latency(p)
+    c = src_consts()
     if op == "c":
         return bound_tenths(p["chmax"]) / 10 + lat
     if op == "d":
-        return (4.8 if high else 0.8) + lat
+        hl = c["ackTimeoutStop"] + c["streamDataTimeout"] + c["ackTimeoutDiv"] + c["ackTimeoutEnable"]
+        return ((hl if high else 0) + drain_tenths()) / 10 + lat
     if op == "s":
-        return 3.0 if high else 1.0
+        return ((c["ackTimeoutDiv"] + c["ackTimeoutEnable"] if high else 0) + c["ackTimeoutStart"]) / 10
     if op == "t":
-        return 2.0 if high else 1.0
+        return (c["ackTimeoutStop"] + (c["streamDataTimeout"] if high else 0)) / 10
     return 0.3
 
 
+def op_limit(p, op):
+    """what the oracle allows a call: the sum of the call's own waits, with slack"""
+    return slack(op_bound(p, op))
+
+
 def session_budget(p):
-    return sum(op_bound(p, op) for op in session_defaults(p)["ops"])
+    return sum(op_limit(p, op) for op in session_defaults(p)["ops"])
 
 
 def describe(p):
@@ -341,7 +475,7 @@ def judge_session(r, p=None):
         last = ops[-1] if ops else {"op": "?", "t1": 0}
         if sim_verdict and "exc" not in r:
             # the budget ran out inside a library / noise task while a call was waiting: name the call that overran
-            over = [o for o in ops if o["t1"] - o["t0"] > op_bound(p, o["op"]) + 0.051]
+            over = [o for o in ops if o["t1"] - o["t0"] > op_limit(p, o["op"]) + 0.051]
             last = over[0] if over else last
             r = dict(r, exc=sim_verdict[0][1], ops=ops[:ops.index(last) + 1])
             ops = r["ops"]
@@ -349,7 +483,8 @@ def judge_session(r, p=None):
         return {"key": "does-not-terminate",
                 "what": f"{names.get(last['op'], last['op'])}() (op {len(ops)} of '{p['ops']}') did not return or raise: "
                         f"{r.get('exc', '')[:300]} ({what})",
-                "expected": f"return or raise within {op_bound(p, last['op']):.2f} s (virtual)",
+                "expected": f"return or raise within {op_limit(p, last['op']):.2f} s (virtual; the call's own time-outs add up to "
+                            f"{op_bound(p, last['op']):.2f} s)",
                 "observed": f"still running at t={r.get('t_end', 0):.2f} s, library threads alive: {last.get('thr')}",
                 "scenario": what}
     if r["errors"]:
@@ -362,11 +497,12 @@ def judge_session(r, p=None):
     clean_link = not p["inject"] and not p["read_inject"] and not p["stream_every"]
     for i, o in enumerate(ops):
         dt = o["t1"] - o["t0"]
-        b = op_bound(p, o["op"])
+        b = op_limit(p, o["op"])
         where = f"op {i + 1} '{o['op']}' of '{p['ops']}' ({what})"
         if dt > b + 0.051:
             key = {"c": "connect-too-long", "d": "disconnect-too-long"}.get(o["op"], "call-too-long")
-            return {"key": key, "what": f"{where} took {dt:.2f} s", "expected": f"<= {b:.2f} s", "observed": dt, "scenario": what}
+            return {"key": key, "what": f"{where} took {dt:.2f} s", "expected": f"<= {b:.2f} s (the call's own time-outs add up to {op_bound(p, o['op']):.2f} s)", "observed": dt,
+                    "scenario": what}
         if o["thr"].count("recv") > 1:
             return {"key": "two-recv-threads", "what": f"two receive threads alive after {where}", "expected": "at most one",
                     "observed": o["thr"], "scenario": what}
@@ -399,7 +535,13 @@ def fmt_session(r):
     """canonical output line of a session (format of the Lean driver op `hs sess`)"""
     if "exc" in r or r["errors"]:
         return "sim-failure " + r.get("exc", "") + repr(r["errors"])
-    parts = [f"{o['op']}={o['res']}@{round(o['t1'] * 10)}/{len(o['thr'])}/{o['intf']}" for o in r["ops"]]
+    # the time stamp is the sum of the calls' durations, each rounded to tenths: joining the receive thread costs what is left
+    # of its current link poll (<= 0.01 s per join, not modelled); rounding the ABSOLUTE time lets these residues add up
+    # over a long session until they flip a digit (R4-C-L3: @331 vs @330 after 11 calls)
+    parts, acc = [], 0
+    for o in r["ops"]:
+        acc += round((o["t1"] - o["t0"]) * 10)
+        parts.append(f"{o['op']}={o['res']}@{acc}/{len(o['thr'])}/{o['intf']}")
     return " ".join(parts) + " sent=" + " ".join(r["sent"])
 
 
@@ -603,9 +745,60 @@ def boundary_scenarios(rng, T):
     return out
 
 
+def stream_frame_hex(chmax):
+    """one well-formed STREAM frame of the reference device with a sample of every channel (no channels: flags byte only)"""
+    dev = refdev.RefDevice(sl.mk_chans([True] * chmax, [0] * chmax))
+    dev.started = True
+    dev.stream_tick()
+    if not dev.rx:
+        dev._send(refdev.STREAM, b"\x00")
+    return bytes(dev.rx).hex()
+
+
+def slow_stream_scenarios(rng, T):
+    """a device that lost / ignores the stop request (crashed previous session) and keeps streaming SLOWLY: one valid stream
+    frame every 0.12 .. 0.35 s from before the connect until the end, everything else answered correctly.  The draining loops
+    poll each queue for 0.1 s at a time and leave after 4 empty polls IN TOTAL, so any period above 0.1 s lets them finish
+    (C10-r4m2 wants 4 empty polls in a row: never).  Periods of 0.1 s and below are the observation of DESIGN section 6
+    (`_drop_all_frames` does not return while frames arrive faster than its poll; outside the property's fault classes):
+    recorded by `observations`, not judged."""
+    out = []
+    periods = [0.15, 0.12, 0.2, 0.35, 0.25, 0.3, 0.11, 0.175]
+    combos = [("l", "cd"), ("h", "cd"), ("h", "csd"), ("l", "cdcd"), ("h", "cspdcd"), ("l", "ctd"), ("h", "ccd"), ("l", "cstd")]
+    for i, period in enumerate(periods if T else periods[:4]):
+        for j in range(2 if T else 1):
+            level, ops = combos[(i + 4 * j) % len(combos)]
+            chmax = (3, 1, 2, 0)[(i + j) % 4]
+            out.append({"kind": "slow-stream-ignoring-stop", "level": level, "chmax": chmax, "flags": (3, 0, 2)[(i + j) % 3],
+                        "en": True, "dflt": "o", "ops": ops, "noise": [{"period": period, "blob": stream_frame_hex(chmax)}]})
+    # the same device that additionally stops answering after the handshake / at the handshake
+    for level, script, dflt, ops in (("h", "ooo", "s", "csd"), ("l", "o", "s", "cd")):
+        out.append({"kind": "slow-stream-ignoring-stop", "level": level, "chmax": 2, "en": True, "script": script, "dflt": dflt,
+                    "ops": ops, "noise": [{"period": 0.15, "blob": stream_frame_hex(2)}]})
+    return out
+
+
+def serial_port_scenarios(rng, T):
+    """the real SerialDevice on a line with rate-limited noise (one or two bytes without a start byte every 0.05 .. 0.9 s,
+    i.e. always something within the port's 1 s time-out): `SerialDevice.drop_all()` leaves after 4 EMPTY reads, so it ends only
+    if an idle port read comes back empty at once (C10-r4m1: `read(in_waiting or 1)` waits for a byte — never empty on such a
+    line, connect stays in its first `_drop_all()`, disconnect of a connected handler in `_stop()`); silent and answering
+    device, both levels; the quiet line as control"""
+    out = []
+    rows = [("l", "s", "cd", 0.2, "a5"), ("h", "o", "cd", 0.2, "a5"), ("l", "s", "cd", None, None), ("h", "o", "csd", 0.5, "00ff")]
+    if T:
+        rows += [("l", "o", "cdcd", 0.05, "a5"), ("h", "s", "cdc", 0.9, "13"), ("l", "o", "ctd", 0.33, "a500"), ("h", "o", "cd", None, None),
+                 ("l", "s", "ccd", 0.7, "ff")]
+    for i, (level, dflt, ops, period, blob) in enumerate(rows):
+        out.append({"kind": "serial-port-noise", "port": "serial", "poll": 1.0, "level": level, "chmax": 1, "flags": (3, 0)[i & 1] if dflt == "o" else 3,
+                    "dflt": dflt, "ops": ops, "noise": [{"period": period, "blob": blob}] if period else []})
+    return out
+
+
 def all_scenarios(rng, tier):
     T = tier == "thorough"
-    return noise_scenarios(rng, T) + boundary_scenarios(rng, T) + postconnect_scenarios(rng, T) + fault_point_scenarios(rng, T)
+    return slow_stream_scenarios(rng, T) + serial_port_scenarios(rng, T) + noise_scenarios(rng, T) + boundary_scenarios(rng, T) + postconnect_scenarios(rng, T) + \
+        fault_point_scenarios(rng, T)
 
 
 def run_scenario(sc):
@@ -639,11 +832,18 @@ class C10(Prop):
             "chunked answers; outcome, virtual time, request log, thread count and interface state after every call are "
             "compared with the model.  extra_checks (termination oracle only): sustained rate-limited noise sources (1 ms..1 s; "
             "55, 5506, 55ffff07, 00, random), residues at every request index, noise at a read index, reconnects with a stale "
-            "buffer, non-UTF-8 names, zero / 255 channels, a link whose idle read blocks 9 s, really streaming devices; "
+            "buffer, non-UTF-8 names, zero / 255 channels, a link whose idle read blocks 9 s, really streaming devices, a device "
+            "that ignores the stop request and keeps streaming one frame per 0.11..0.35 s, the real SerialDevice over a virtual-time "
+            "port with line noise every 0.05..0.9 s.  Time limits of the oracle: the sum of the call's own time-outs as read from "
+            "the source under test (x 1.25 + 1 s), not fixed figures; "
             "distinct = distinct line; non-trivial = script with at least one fault")
-    assumptions = ["time is virtual (timeout units); real elapsed time and blocking inside pyserial are outside the model",
+    assumptions = ["time is virtual (timeout units); real elapsed time is outside the model; blocking inside pyserial is simulated "
+                   "for the serial-port scenarios only (read(n>0) waits for n bytes or the port time-out, an idle read(0) is "
+                   "charged 5 ms)",
                    "fault classes: finitely many bytes per request or noise of bounded rate (a device streaming forever while "
-                   "ignoring stop is not covered by the two draining loops)",
+                   "ignoring stop is judged only when its frame period is above the draining loops' 0.1 s poll; faster: observation)",
+                   "the only request awaited while the stream thread runs is the stop request; a STREAM frame as its answer restarts "
+                   "the thread's poll (driver's scheduler bookkeeping, `hsSessLoop`)",
                    "an ACK frame whose payload has the wrong size raises struct.error out of the ACK wait: outside the fault "
                    "classes, modelled and compared but not judged"]
 
@@ -657,16 +857,16 @@ class C10(Prop):
             yield f"hs connect {chmax} 3 0 - s", "all-silent"
             yield f"hs connect {chmax} {fl} 0 - w", "all-wrong"
             for k in range(nreq + 1):
-                for f in "swhgnx":
+                for f in "swhgnxru":
                     yield f"hs connect {chmax} {(3, 0, 2, 1, 255)[(k + chmax) % 5]} 0 {'o' * k + f} o", f"one-fault-{f}"
                     yield f"hs connect {chmax} 3 0 {'o' * k or '-'} {f}", f"from-k-{f}"
                     if f in "swh" or T:
                         yield f"hs connect {chmax} 3 8 {'o' * k + f + f} o", f"two-faults-{f}-pad"
         for _ in range(300 if T else 50):
             chmax = rng.randrange(0, 7)
-            script = "".join(rng.choice("ooooswwhnx" if rng.random() < 0.7 else "oosg") for _ in range(rng.randrange(0, 30)))
+            script = "".join(rng.choice("ooooswwhnxru" if rng.random() < 0.7 else "oosgr") for _ in range(rng.randrange(0, 30)))
             yield (f"hs connect {chmax} {rng.choice([0, 1, 2, 3, 3, 255, rng.randrange(256)])} {rng.choice([0, 0, 4, 16])} "
-                   f"{script or '-'} {rng.choice('ooosw')}"), "random"
+                   f"{script or '-'} {rng.choice('ooooswr')}"), "random"
         yield "hs connect 40 3 0 - o", "big"
         yield "hs connect 40 3 0 ooooooooooss s", "big-silent"
         yield "hs connect 255 3 0 - o", "max"
@@ -677,7 +877,7 @@ class C10(Prop):
                      ("cd", "csd", "cstd", "ctd", "cdcd", "ccd")
             for chmax in ((0, 1, 2, 3) if T else (0, 2)):
                 nreq = 1 + chmax
-                for f in "sngwx":
+                for f in "sngwxr":
                     for ops in opsets:
                         for k in (range(0, 5) if T else (0, 2)):
                             flags = (3, 2, 3, 0, 1)[(k + chmax + len(ops)) % 5] if f in "sn" else 3
@@ -691,10 +891,10 @@ class C10(Prop):
         for _ in range(400 if T else 60):
             level = rng.choice("lh")
             chmax = rng.randrange(0, 5)
-            script = "".join(rng.choice("ooooooosnwxg" if rng.random() < 0.8 else "oosh") for _ in range(rng.randrange(0, 16)))
+            script = "".join(rng.choice("ooooooosnwxgru" if rng.random() < 0.8 else "ooshr") for _ in range(rng.randrange(0, 16)))
             ops = "c" + "".join(rng.choice("csstdpd" if level == "h" else "cstdd") for _ in range(rng.randrange(1, 6)))
             yield (f"hs sess {level} {chmax} {rng.choice([3, 3, 3, 2, 1, 0, 255])} {rng.choice([0, 0, 0, 4])} {script or '-'} "
-                   f"{rng.choice('oooosn')} {ops} {rng.choice([0, 0, 1, 2, 7])}"), "session-random"
+                   f"{rng.choice('oooosnr')} {ops} {rng.choice([0, 0, 1, 2, 7])}"), "session-random"
 
     def impl(self, line):
         t = line.split(" ")
@@ -714,7 +914,7 @@ class C10(Prop):
     def nontrivial(self, line, out):
         t = line.split(" ")
         sc = t[6] + t[7] if t[1] == "sess" else t[5] + t[6]
-        return any(c in sc for c in "swhgnx")
+        return any(c in sc for c in "swhgnxru")
 
     def oracle(self, line, impl_out=None):
         t = line.split(" ")
@@ -726,7 +926,7 @@ class C10(Prop):
             return v
         chmax, flags, rxp = int(t[2]), int(t[3]), int(t[4])
         script = "" if t[5] == "-" else t[5]
-        r = run_connect(chmax, flags, rxp, script, t[6], time_limit=bound_tenths(chmax) / 10 + 50)
+        r = run_connect(chmax, flags, rxp, script, t[6], time_limit=slack(bound_tenths(chmax) / 10) + 50)
         return judge(r, chmax, f"script={t[5]} default={t[6]}")
 
     # -- scenarios ----------------------------------------------------------------------------------------------------------------
@@ -754,12 +954,17 @@ class C10(Prop):
         return viol
 
     def observations(self):
-        """ACK frames of the wrong size (outside the fault classes): recorded, not judged"""
+        """outside the fault classes — recorded, not judged: ACK frames of the wrong size; a device that ignores the stop
+        request and streams FASTER than the draining loop polls (one frame per 0.05 s against 0.1 s polls: `_drop_all_frames`
+        never sees an empty poll; DESIGN section 6)"""
         out = []
         for level, ops in (("l", "csd"), ("h", "csd"), ("h", "cd")):
             p = {"level": level, "chmax": 1, "script": "oo", "dflt": "h", "ops": ops}
             r = run_session(p)
             out.append({"session": describe(p), "result": fmt_session(r)})
+        p = {"level": "l", "chmax": 1, "en": True, "dflt": "o", "ops": "c", "noise": [{"period": 0.05, "blob": stream_frame_hex(1)}]}
+        r = run_session(p, time_limit=20.0)
+        out.append({"session": describe(p), "result": fmt_session(r)[:160]})
         return out
 
     def replay(self, obj):
@@ -778,10 +983,14 @@ def judge(r, chmax, what, must_connect=False):
                 "expected": f"return or raise within {bound_tenths(chmax) / 10} s + disconnect", "observed": repr(r["errors"][0]), "scenario": what}
     if r["errors"]:
         return {"key": "thread-died", "what": f"library thread died ({what}): {r['errors'][0]}", "expected": "-", "observed": repr(r["errors"][0]), "scenario": what}
-    if r["t"] * 10 > bound_tenths(chmax) + 1:
-        return {"key": "connect-too-long", "what": f"connect took {r['t']:.1f} s ({what})", "expected": f"<= {bound_tenths(chmax) / 10}", "observed": r["t"], "scenario": what}
-    if r["t2"] - r["t"] > 6.0:
-        return {"key": "disconnect-too-long", "what": f"disconnect took {r['t2'] - r['t']:.1f} s ({what})", "expected": "<= 6 s", "observed": r["t2"] - r["t"], "scenario": what}
+    cb = slack(bound_tenths(chmax) / 10)
+    if r["t"] > cb:
+        return {"key": "connect-too-long", "what": f"connect took {r['t']:.1f} s ({what})",
+                "expected": f"<= {cb:.1f} s (its own time-outs add up to {bound_tenths(chmax) / 10} s)", "observed": r["t"], "scenario": what}
+    db = slack(drain_tenths() / 10 + 0.1)
+    if r["t2"] - r["t"] > db:
+        return {"key": "disconnect-too-long", "what": f"disconnect took {r['t2'] - r['t']:.1f} s ({what})", "expected": f"<= {db:.1f} s",
+                "observed": r["t2"] - r["t"], "scenario": what}
     if r["thr2"] or r["live"]:
         return {"key": "thread-left", "what": f"library thread left alive after disconnect ({what}): {r['live']}", "expected": "none", "observed": r["live"], "scenario": what}
     if r["outcome"].startswith("raised") and r["thr"]:
